@@ -252,6 +252,7 @@ def run_shard(spec, ctx):
     r = random.Random(ctx.seed * 1000003 + 505 + spec['sub'])
     gen = D.Gen(r)
     gen.zoneless = 0.3
+    remembered = []
     for i in range(spec['n']):
         form = FORMS[i % len(FORMS)]
         k = 1 if not form.startswith('array') else r.choice([0, 1, 2, 3])
@@ -274,6 +275,17 @@ def run_shard(spec, ctx):
             report(ctx, ns, seed, form, sym, detail)
         elif i < 2:
             ctx.sample({'document': art['text'][:500], 'form': form})
+        if not sym and len(remembered) < 200:
+            remembered.append((ns, seed, form))
+    # history independence: the first documents again, in reverse order, after everything else this process has read
+    for ns, seed, form in reversed(remembered):
+        sym, detail, art = judge_doc(ns, seed, None, form)
+        ctx.count('documents re-read at the end of the shard')
+        if sym:
+            ctx.violation({'part': 'history', 'format': 'json', 'position': 'document', 'kind': 'grid', 'symptom': 'reading-depends-on-history',
+                           'features': ['form=' + form]}, 'a document that was read correctly at the start of the process now gives %s: %s | text %r' % (
+                               sym, detail, art['text'][:300]), {'ns': [D.enc(g) for g in ns], 'seed': seed, 'script': None, 'form': form})
+            break
 
 
 def replay(case, ctx):
